@@ -1,11 +1,33 @@
 from __future__ import annotations
 
+import functools
 from typing import TYPE_CHECKING
 
 from typing_extensions import override
 
 if TYPE_CHECKING:
     from funtracks.data_model import Tracks
+
+
+def atomic(init):
+    """Decorator for the constructor of an ActionGroup that applies its sub-actions while
+    it is being constructed: if the constructor raises after some sub-actions were already
+    applied, they are inverted again (in reverse order) before the exception propagates,
+    so that a refused action leaves the tracks unchanged.
+    """
+
+    @functools.wraps(init)
+    def wrapper(self, *args, **kwargs):
+        try:
+            init(self, *args, **kwargs)
+        except Exception:
+            applied = getattr(self, "actions", [])
+            self.actions = []
+            for action in reversed(applied):
+                action.inverse()
+            raise
+
+    return wrapper
 
 
 class Action:
